@@ -68,6 +68,9 @@ func scenarios(tier string) []vlib.Scenario {
 	// timeout (3 s) governs a Close without deadline
 	out = append(out, vlib.Scenario{Name: params{"upclose-stalledwrite", 0, 0}.name(), P: params{"upclose-stalledwrite", 0, 0}})
 	out = append(out, vlib.Scenario{Name: params{"upclose-stalledwrite", 0, 1}.name(), P: params{"upclose-stalledwrite", 0, 1}})
+	// the peer stops reading (keep-alive 20 s): a call and a metadata read with a 5 s context, and the Close behind them
+	out = append(out, vlib.Scenario{Name: params{"call-stalledwrite", 0, 0}.name(), P: params{"call-stalledwrite", 0, 0}})
+	out = append(out, vlib.Scenario{Name: params{"readmeta-stalledwrite", 0, 0}.name(), P: params{"readmeta-stalledwrite", 0, 0}})
 	// an option value the wire layer refuses by panicking (the caller recovers): later calls still work
 	out = append(out, vlib.Scenario{Name: params{"badqos", 0, 0}.name(), P: params{"badqos", 0, 0}})
 	if tier == "thorough" {
@@ -298,7 +301,7 @@ func (w *world) main() {
 		}
 	}
 	var copts []iscp.ConnOption
-	if w.p.API == "upclose-stalledwrite" {
+	if w.p.API == "upclose-stalledwrite" || w.p.API == "call-stalledwrite" || w.p.API == "readmeta-stalledwrite" {
 		copts = append(copts, iscp.WithConnPingInterval(20*time.Second))
 	}
 	if err := w.Connect(w.script(), copts...); err != nil {
@@ -310,7 +313,7 @@ func (w *world) main() {
 	w.Phase = "setup"
 	api := w.p.API
 	needUp := api == "writeflush" || api == "upclose" || api == "writelate" || api == "writeblocked" || api == "upclose-stalledwrite"
-	needDown := api == "read" || api == "readmeta" || api == "downclose" || api == "downclose-flood"
+	needDown := api == "read" || api == "readmeta" || api == "downclose" || api == "downclose-flood" || api == "readmeta-stalledwrite"
 	if needUp && api == "writelate" {
 		// an ack timeout is configured: an acknowledgement may arrive after its waiter has given up
 		w.up, _ = w.OpenUp(sctx, "u0", iscp.WithUpstreamFlushPolicyNone(), iscp.WithUpstreamQoS(message.QoSReliable), iscp.WithUpstreamCloseTimeout(3*time.Second), iscp.WithUpstreamAckTimeout(time.Second))
@@ -394,6 +397,37 @@ func (w *world) main() {
 			w.timedBackground("Upstream.Close(background)", 2*w.closeTimeout, func(ctx context.Context) error { return w.up.U.Close(ctx) })
 		} else {
 			w.timed("Upstream.Close", callTimeout, false, func(ctx context.Context) error { return w.up.U.Close(ctx) })
+		}
+		w.timed("Conn.Close", callTimeout, false, func(ctx context.Context) error { return w.Conn.Close(ctx) })
+		link.HoldClientWrites = false
+		api = "connclose"
+	case "call-stalledwrite", "readmeta-stalledwrite":
+		link := w.B.Live().Link
+		if api == "readmeta-stalledwrite" {
+			w.B.Send(w.B.Live(), &message.DownstreamMetadata{RequestID: 7003, StreamIDAlias: w.B.Downs[0].Alias, SourceNodeID: "src", Metadata: &message.BaseTime{Name: "good"}})
+			vsched.Quiesce()
+		}
+		link.HoldClientWrites = true
+		if api == "call-stalledwrite" {
+			var cwg vsched.WaitGroup
+			cwg.Add(1)
+			vsched.Go("h:second-caller", func() {
+				defer cwg.Done()
+				w.timed("SendCall#2", callTimeout, false, func(ctx context.Context) error {
+					_, err := w.Conn.SendCall(ctx, &iscp.UpstreamCall{DestinationNodeID: "d", Name: "n2", Type: "t"})
+					return err
+				})
+			})
+			w.timed("SendCall", callTimeout, false, func(ctx context.Context) error {
+				_, err := w.Conn.SendCall(ctx, &iscp.UpstreamCall{DestinationNodeID: "d", Name: "n", Type: "t"})
+				return err
+			})
+			cwg.Wait()
+		} else {
+			w.timed("ReadMetadata", callTimeout, false, func(ctx context.Context) error {
+				_, err := w.down.D.ReadMetadata(ctx)
+				return err
+			})
 		}
 		w.timed("Conn.Close", callTimeout, false, func(ctx context.Context) error { return w.Conn.Close(ctx) })
 		link.HoldClientWrites = false
